@@ -998,8 +998,10 @@ impl fmt::Display for PreExp {
                 }
             }
             Self::Variable(name) => {
-                if name.contains('_') {
-                    //in case this is a escaped variable
+                // a name is escaped when it would otherwise read as a compound variable; a simple
+                // variable may start with `$` and underscores (`__t`, `_c1`) and is written as it is
+                let body = name.trim_start_matches('$').trim_start_matches('_');
+                if body.contains('_') {
                     format!("\\{}", **name)
                 } else {
                     name.to_string()
